@@ -1425,6 +1425,29 @@ Proof. unfold live_count. induction k; cbn; auto. Qed.
 Lemma free_sq_none fuel h : free_sq fuel h None = Ok h.
 Proof. destruct fuel; reflexivity. Qed.
 
+Lemma send_after_connect k t : nul_free t ->
+  send_user (mkConn (repeat Freed k) ST_CONNECTED true true (SmLive sm_zero) None None 0 0) t (zlen t)
+  = Ok (mkConn (repeat Freed k ++ [Live (mkNode (Some (t ++ [0])) (zlen t) 0 false OWNER_USER None 0 None None)])
+               ST_CONNECTED true true (SmLive sm_zero) (Some (length (repeat Freed k))) (Some (length (repeat Freed k))) 1 1,
+        Some SNull).
+Proof.
+  intros Ht. unfold send_user. cbn [c_state]. change (negb (ST_CONNECTED =? ST_CONNECTED)) with false. cbv iota.
+  rewrite strndup_nul_free by assumption. reflexivity.
+Qed.
+
+Lemma release_one k nd :
+  release (mkConn (repeat Freed k ++ [Live nd]) ST_DISCONNECTED false true (SmLive sm_zero)
+                  (Some (length (repeat Freed k))) (Some (length (repeat Freed k))) 1 1)
+  = Ok (repeat Freed k ++ [Freed]) \/ n_next nd <> None.
+Proof.
+  destruct (n_next nd) eqn:E; [right; congruence|left].
+  unfold release. cbn [c_heap sq_head]. unfold walk_fuel. rewrite app_length. cbn [length]. rewrite Nat.add_1_r.
+  cbn [free_sq]. rewrite hget_mid. cbn [bind]. rewrite queue_element_free_mid. cbn [bind fst]. rewrite E.
+  rewrite ?free_sq_none. cbn [bind with_queue with_heap c_sm c_heap c_state c_neg c_cb].
+  unfold free_sm_state. cbn [c_sm c_heap mq_head mq_tail sm_zero].
+  reflexivity.
+Qed.
+
 (* what "clean" buys: the connection answers every queue call like a new one, can be "connected" and used,
    and its release frees nothing twice and leaves nothing behind *)
 Theorem clean_usable k :
@@ -1441,26 +1464,13 @@ Theorem clean_usable k :
 Proof.
   cbv zeta. repeat split; try reflexivity.
   - apply live_count_freed.
-  - intros t Ht. unfold send_user, op_connect, clean_conn.
-    cbn [with_heap with_sm with_state fresh_conn c_sm c_state c_heap c_neg c_cb sq_head sq_tail sq_len sq_ulen].
-    change (negb (ST_CONNECTED =? ST_CONNECTED)) with false. cbv iota.
-    rewrite strndup_nul_free by assumption.
-    unfold enqueue, halloc. cbn [c_heap sq_tail sq_head sq_len sq_ulen bind with_heap with_queue c_state c_neg c_cb c_sm].
-    change (OWNER_USER =? OWNER_USER) with true. cbv iota.
-    unfold deref_sm. cbn [c_sm bind sm_enabled sm_zero andb].
-    rewrite andb_false_r. cbv iota.
-    eexists. split; [reflexivity|]. split.
-    + unfold qlen. cbn [sq_head c_heap]. unfold hget. rewrite repeat_length.
-      rewrite <- (repeat_length Freed k) at 2. rewrite nth_error_app_len. reflexivity.
-    + unfold release, op_disconnect, with_state. cbn [c_heap sq_head c_sm c_state].
-      unfold walk_fuel. rewrite app_length. cbn [length]. rewrite repeat_length. rewrite Nat.add_1_r.
-      cbn [free_sq]. unfold hget. rewrite <- (repeat_length Freed k) at 1 2 3.
-      rewrite nth_error_app_len. cbn [bind]. unfold queue_element_free, hget.
-      rewrite nth_error_app_len. cbn [bind]. unfold hfree. rewrite nth_error_app_len.
-      rewrite lset_app_len. cbn [bind fst n_next]. rewrite free_sq_none. cbn [bind with_queue with_heap c_sm].
-      unfold free_sm_state. cbn [c_sm c_heap mq_head mq_tail sm_zero].
-      cbn [free_mq pop_queue_front bind with_sm with_heap c_heap].
-      eexists. split; [reflexivity|].
-      unfold live_count. rewrite filter_app. cbn [filter]. rewrite app_nil_r.
-      apply live_count_freed.
+  - intros t Ht.
+    change (op_connect (clean_conn k)) with (mkConn (repeat Freed k) ST_CONNECTED true true (SmLive sm_zero) None None 0 0).
+    rewrite send_after_connect by assumption. eexists. split; [reflexivity|]. split.
+    + unfold qlen. cbn [sq_head c_heap]. rewrite hget_mid. reflexivity.
+    + unfold op_disconnect, with_state. cbn [c_heap c_cb c_sm sq_head sq_tail sq_len sq_ulen].
+      destruct (release_one k (mkNode (Some (t ++ [0])) (zlen t) 0 false OWNER_USER None 0 None None)) as [E|E];
+        [|cbn in E; congruence].
+      rewrite E. eexists. split; [reflexivity|].
+      unfold live_count. rewrite filter_app. cbn [filter]. rewrite app_nil_r. apply live_count_freed.
 Qed.
